@@ -449,6 +449,10 @@ pub enum Ev {
     Unblock,
     /// The socket implements vectored writes natively from now on.
     Vectored,
+    /// An event of the explorer's own (another participant acts: the data
+    /// source advances, a second socket does something, ...); `play_with`
+    /// hands it to the caller's hook, `play` ignores it.
+    User(u8),
     /// Run to quiescence.
     Settle,
 }
@@ -468,6 +472,7 @@ pub fn render_script(script: &[Ev]) -> String {
             Ev::WriteBudget(k) => s.push_str(&format!("B{k}")),
             Ev::Unblock => s.push('U'),
             Ev::Vectored => s.push('V'),
+            Ev::User(k) => s.push_str(&format!("X{k}")),
             Ev::Settle => s.push('|'),
         }
     }
@@ -489,6 +494,7 @@ pub fn parse_script(s: &str) -> Option<Vec<Ev>> {
             b'B' => Ev::WriteBudget(num(tok)?),
             b'U' => Ev::Unblock,
             b'V' => Ev::Vectored,
+            b'X' => Ev::User(num(tok)? as u8),
             b'|' => Ev::Settle,
             _ => return None,
         });
@@ -523,7 +529,15 @@ pub struct Trace {
 /// of `stream` (fewer if the stream runs out), `Notify` fires `notify` (which
 /// must then be given), `Settle` runs to quiescence.
 pub async fn play(
-    ctl: &SockCtl, stream: &[u8], mut notify: Option<&mut NotifySender>, script: &[Ev],
+    ctl: &SockCtl, stream: &[u8], notify: Option<&mut NotifySender>, script: &[Ev],
+) -> Trace {
+    play_with(ctl, stream, notify, script, &mut |_| {}).await
+}
+
+/// Like `play`; `Ev::User(k)` events are handed to `hook` (synchronously, as
+/// part of the batch they stand in).
+pub async fn play_with(
+    ctl: &SockCtl, stream: &[u8], mut notify: Option<&mut NotifySender>, script: &[Ev], hook: &mut dyn FnMut(u8),
 ) -> Trace {
     let mut tr = Trace::default();
     let mut pos = 0usize;
@@ -544,6 +558,7 @@ pub async fn play(
             Ev::WriteBudget(k) => ctl.set_write_budget(Some(k)),
             Ev::Unblock => ctl.set_write_budget(None),
             Ev::Vectored => ctl.set_vectored(true),
+            Ev::User(k) => hook(k),
             Ev::Settle => {
                 let q = quiesce(&[ctl]).await;
                 tr.spin |= q.spin;
